@@ -433,6 +433,26 @@ func (u *Universe) discoverTables() error {
 						if !ok || call.Call.StaticCallee() != reg {
 							continue
 						}
+						// `for key, factory := range map[K]func() Codec{k1: f1, …} { Registry(key, factory) }`: one
+						// registration per entry of the literal (a map built here, filled with constant keys, only ranged over)
+						if ents := rangedLiteralEntries(call.Call.Args[0], call.Call.Args[1]); ents != nil {
+							for _, en := range ents {
+								r := &Registration{Call: call, InInit: isInitFunc(fn), KeyVal: en.key, Key: en.key.ExactString()}
+								switch fv := en.val.(type) {
+								case *ssa.Function:
+									r.Closure = fv
+								case *ssa.MakeClosure:
+									if len(fv.Bindings) == 0 {
+										r.Closure, _ = fv.Fn.(*ssa.Function)
+									}
+								}
+								if r.Closure != nil {
+									r.Type, r.Fresh = u.factoryResult(r.Closure)
+								}
+								t.Regs = append(t.Regs, r)
+							}
+							continue
+						}
 						// the key: a constant, or an expression over the elements of a constant slice/array literal the call
 						// site loops over (one registration per element)
 						keys, okKeys := constSet(call.Call.Args[0], 0)
@@ -1808,4 +1828,66 @@ func recordMapUse(call *ssa.Call, rec ssa.Value, fidx int, depth int) string {
 		}
 	}
 	return res
+}
+
+
+type literalEntry struct {
+	key constant.Value
+	val ssa.Value
+}
+
+// rangedLiteralEntries: k and v are the key and value a `for k, v := range m` hands out, m being a map made in this
+// function, filled only by updates with constant keys and used for nothing but that range: the entries.
+func rangedLiteralEntries(k, v ssa.Value) []literalEntry {
+	strip := func(x ssa.Value) ssa.Value {
+		for {
+			switch y := x.(type) {
+			case *ssa.ChangeType:
+				x = y.X
+				continue
+			}
+			return x
+		}
+	}
+	ek, ok1 := strip(k).(*ssa.Extract)
+	ev, ok2 := strip(v).(*ssa.Extract)
+	if !ok1 || !ok2 || ek.Index != 1 || ev.Index != 2 || ek.Tuple != ev.Tuple {
+		return nil
+	}
+	nx, ok := ek.Tuple.(*ssa.Next)
+	if !ok {
+		return nil
+	}
+	rg, ok := nx.Iter.(*ssa.Range)
+	if !ok {
+		return nil
+	}
+	mm, ok := rg.X.(*ssa.MakeMap)
+	if !ok {
+		return nil
+	}
+	var out []literalEntry
+	seen := map[string]bool{}
+	for _, r := range *mm.Referrers() {
+		switch r := r.(type) {
+		case *ssa.DebugRef:
+		case *ssa.Range:
+			if r != rg {
+				return nil
+			}
+		case *ssa.MapUpdate:
+			c, isC := r.Key.(*ssa.Const)
+			if !isC || c.Value == nil || r.Map != ssa.Value(mm) || r.Block().Parent() != mm.Parent() {
+				return nil
+			}
+			if seen[c.Value.ExactString()] {
+				return nil
+			}
+			seen[c.Value.ExactString()] = true
+			out = append(out, literalEntry{c.Value, r.Value})
+		default:
+			return nil
+		}
+	}
+	return out
 }
